@@ -1,10 +1,13 @@
 (* Property C15 — scenario execution: order, multiplicity, pauses, variable flow, stop at the
    first failing step, weights, [next] round-robin.  Statements only; proofs live in Proofs/. *)
 From Coq Require Import List NArith ZArith Bool Lia.
-From PV Require Import Model.Iterator Model.Scenario Proofs.ScenarioParseProofs.
+From PV Require Import Model.Iterator Model.Scenario
+  Proofs.ScenarioParseProofs Proofs.ScenarioExpandProofs Proofs.ScenarioRingProofs
+  Proofs.ScenarioShotProofs Proofs.IteratorProofs.
 Import ListNotations.
 Local Open Scope N_scope.
 
+(* ------------------------------------------------------------------------------------ *)
 (* The three documented forms of a request-list entry parse to exactly the name, multiplicity
    and pause that were written, whatever blanks surround the tokens; an omitted or empty
    argument means multiplicity 1 / pause 0.  (print_bare is not padded: ParseStringFunc does
@@ -33,3 +36,231 @@ Proof.
   - apply (lit_plain 1%Z [51]); [discriminate|repeat constructor|unfold dval, int64_max; cbn; lia].
   - apply (lit_plain 0%Z [49;48;48]); [discriminate|repeat constructor|unfold dval, int64_max; cbn; lia].
 Qed.
+
+(* ------------------------------------------------------------------------------------ *)
+(* Expansion.  Read every entry as the documentation does ([item_of]: a request of a known
+   name with multiplicity n and pause, or sleep(ms)).  If every entry reads, multiplicities
+   are >= 1 and the list does not start with a sleep, the loop of convertScenarioToAmmo
+   yields exactly [spec_expand]: in listed order, n copies of each named request, each copy
+   with the pause of name(n, pause), the sleeps that follow an entry added to its LAST copy
+   only.  Its requests are the listed requests with their multiplicities; every written pause
+   is applied exactly once.  An entry that does not read (syntax error, unknown name) makes
+   the construction fail. *)
+Theorem C15_expand : forall (R : Type) (reqs : list (bytes * R)),
+  (forall shoots items,
+     map (item_of R reqs) shoots = map Some items -> pos_items R items -> not_sleep_head R items ->
+     expand R reqs shoots = ExpOk (spec_expand R items)) /\
+  (forall items,
+     map fst (spec_expand R items) =
+     flat_map (fun it => match it with IReq r n _ => repeat r n | ISleep _ => [] end) items) /\
+  (forall items, pos_items R items -> not_sleep_head R items ->
+     sum_z (map snd (spec_expand R items)) =
+     sum_z (map (fun it => match it with IReq _ n p => (Z.of_nat n * p)%Z | ISleep ms => ms end) items)) /\
+  (forall pre sh post items,
+     map (item_of R reqs) pre = map Some items -> pos_items R items -> not_sleep_head R items ->
+     item_of R reqs sh = None ->
+     exists e, expand R reqs (pre ++ sh :: post) = ExpErr e).
+Proof.
+  intros R reqs. split; [exact (expand_spec R reqs)|].
+  split; [exact (spec_expand_requests R)|].
+  split; [exact (spec_expand_total_pause R)|exact (expand_bad_entry R reqs)].
+Qed.
+Print Assumptions C15_expand.
+
+(* non-vacuity: requests a, b;  [ "a(2, 5)", "sleep(3)", " b " is not trimmed so "b" ] *)
+Example C15_expand_example :
+  let reqs := [([97], 0%nat); ([98], 1%nat)] in
+  let shoots := [[97;40;50;44;32;53;41]; [115;108;101;101;112;40;51;41]; [98]] in
+  let items := [IReq 0%nat 2 5%Z; ISleep 3%Z; IReq 1%nat 1 0%Z] in
+  map (item_of nat reqs) shoots = map Some items /\ pos_items nat items /\ not_sleep_head nat items /\
+  expand nat reqs shoots = ExpOk [(0%nat, 5%Z); (0%nat, 8%Z); (1%nat, 0%Z)].
+Proof.
+  cbv zeta. split; [reflexivity|]. split; [repeat constructor|]. split; [exact I|reflexivity].
+Qed.
+
+(* ------------------------------------------------------------------------------------ *)
+(* lib/math: the Go loops compute greatest common divisors of positive arguments and never run
+   out of fuel. *)
+Theorem C15_gcd :
+  (forall a b, (0 < a)%Z -> (0 < b)%Z -> gcd_go a b = Some (Z.gcd a b)) /\
+  (forall ws, (2 <= length ws)%nat -> all_pos ws -> gcdm_go ws = Some (gcd_list ws)).
+Proof. split; [exact gcd_go_correct|exact gcdm_go_correct]. Qed.
+Print Assumptions C15_gcd.
+
+(* Weights.  For scenarios with distinct names and weights >= 0 (0 counts as 1, as the code
+   does): decodeAmmo's ring is [spec_ring]; with g the gcd of the weights, scenario i occurs
+   exactly weight_i / g times in one turn (copies * g = weight, so the copies of any two
+   scenarios are in the exact proportion of their weights); Provider.Run delivers cyclically,
+   so over any m full turns, from any starting point, scenario i is delivered m * copies_i
+   times; and in ANY window of L consecutive deliveries its count differs from L * copies_i /
+   |ring| = L * w_i / sum(w) by less than copies_i. *)
+Theorem C15_weights : forall (scs : list (bytes * Z)),
+  NoDup (map fst scs) -> weights_ok (map snd scs) -> (2 <= length scs)%nat ->
+  let ws := map snd scs in
+  let ring := spec_ring ws in
+  let g := gcd_list (map norm_w ws) in
+  ring_of scs = RingOk ring /\ (0 < g)%Z /\
+  (forall i w, nth_error ws i = Some w -> (Z.of_nat (count_nat i ring) * g = norm_w w)%Z) /\
+  (forall i j wi wj, nth_error ws i = Some wi -> nth_error ws j = Some wj ->
+     (Z.of_nat (count_nat i ring) * norm_w wj = Z.of_nat (count_nat j ring) * norm_w wi)%Z) /\
+  (0 < length ring)%nat /\
+  (forall i a m, cnt ring i a (m * length ring) = (m * count_nat i ring)%nat) /\
+  (forall i a L, (0 < count_nat i ring)%nat ->
+     (Z.abs (Z.of_nat (length ring) * Z.of_nat (cnt ring i a L) - Z.of_nat L * Z.of_nat (count_nat i ring))
+      < Z.of_nat (length ring) * Z.of_nat (count_nat i ring))%Z) /\
+  (forall i a L, count_nat i ring = O -> cnt ring i a L = O).
+Proof. exact weights_theorem. Qed.
+Print Assumptions C15_weights.
+
+(* non-vacuity: weights 2 and 4 -> ring s0 s1 s1; a single scenario -> ring of one *)
+Example C15_weights_example :
+  ring_of [([115;48], 2%Z); ([115;49], 4%Z)] = RingOk [0;1;1]%nat /\
+  NoDup (map fst [([115;48], 2%Z); ([115;49], 4%Z)]) /\
+  ring_of [([115;48], 7%Z)] = RingOk [0%nat] /\
+  ring_of [([115;48], 50%Z); ([115;49], 0%Z)] = RingOk (repeat 0%nat 50 ++ [1%nat]).
+Proof.
+  split; [reflexivity|]. split; [|split; reflexivity].
+  constructor; [intros [H|[]]; discriminate H|]. constructor; [intros []|constructor].
+Qed.
+
+(* ------------------------------------------------------------------------------------ *)
+(* One shot, for ANY preprocessor/templater/HTTP/postprocessor behaviour and any world state.
+   The events of a shot are ordered by step, within a step render < send < sample < pause.
+   If every step succeeds: all steps are sent once, in list order; one successful sample per
+   step; a pause after exactly the steps that have one.  If step j is the first to fail with
+   kind k: steps 0..j-1 were sent (and step j too iff the failure came after the request was
+   handed to the client: transport or postprocessor/assertion failure), nothing with an index
+   above j happened, samples are one per step 0..j, the first j successful and the j-th
+   flagged failed; pauses only after steps before j. *)
+Theorem C15_order_stop :
+  forall (W Src Req Rend Resp V : Type) (rname : Req -> bytes)
+         (o_pre : Req -> tree Src V -> W -> W * option (vars V))
+         (o_render : Req -> tree Src V -> W -> W * option Rend)
+         (o_exec : Rend -> W -> W * option Resp)
+         (o_post : Req -> Resp -> W -> W * option (vars V))
+         (o_status : Resp -> Z) (src : Src) (steps : list (Req * Z)) (w : W),
+  let '(evs, _, out) := shoot W Src Req Rend Resp V rname o_pre o_render o_exec o_post o_status src steps w in
+  match out with
+  | Done =>
+      sends Src Rend V evs = seq 0 (length steps) /\
+      map fst (samples Src Rend V evs) = seq 0 (length steps) /\
+      all_ok (samples Src Rend V evs) /\
+      pauses Src Rend V evs = pauses_spec Req 0 steps
+  | FailedAt j k =>
+      exists d, j = (0 + d)%nat /\ (d < length steps)%nat /\
+        sends Src Rend V evs = seq 0 d ++ (if fk_sent k then [j] else []) /\
+        (exists oks, samples Src Rend V evs = oks ++ [(j, None)] /\ map fst oks = seq 0 d /\ all_ok oks) /\
+        pauses Src Rend V evs = pauses_spec Req 0 (firstn d steps) /\
+        Forall (fun e => (ev_index Src Rend V e <= j)%nat) evs
+  end /\
+  increasing (map (ev_key Src Rend V) evs).
+Proof. exact shoot_order_stop. Qed.
+Print Assumptions C15_order_stop.
+
+(* The executable specification [order_stop_b] (used by the check on the IMPLEMENTATION's
+   observation: ids of the requests the target received, and (step name, success?) of every
+   reported sample) accepts every shot of the model, provided the templater renders the
+   request it was given; in particular every shot of the concrete instance. *)
+Theorem C15_order_stop_exec :
+  (forall (W Src Req Rend Resp V : Type) (rname : Req -> bytes)
+          (o_pre : Req -> tree Src V -> W -> W * option (vars V))
+          (o_render : Req -> tree Src V -> W -> W * option Rend)
+          (o_exec : Rend -> W -> W * option Resp)
+          (o_post : Req -> Resp -> W -> W * option (vars V))
+          (o_status : Resp -> Z) (rid : Req -> N) (rend_id : Rend -> N),
+     (forall rq t w w' r, o_render rq t w = (w', Some r) -> rend_id r = rid rq) ->
+     forall (src : Src) (steps : list (Req * Z)) (w : W),
+     let '(evs, _, _) := shoot W Src Req Rend Resp V rname o_pre o_render o_exec o_post o_status src steps w in
+     order_stop_b (step_obs Req rname rid steps) (send_ids Src Rend V rend_id evs) (sample_obs Src Rend V evs) = true) /\
+  (forall src steps w,
+     let '(evs, _, _) := c_shoot src steps w in
+     order_stop_b (c_step_obs steps) (c_send_ids evs) (c_sample_obs evs) = true).
+Proof. split; [exact shoot_order_stop_b|exact c_shoot_order_stop_b]. Qed.
+Print Assumptions C15_order_stop_exec.
+
+(* the executable specification is not trivially true: a sample after a failed one, a missing
+   request, a skipped step and a request after the failure are all rejected *)
+Example C15_order_stop_exec_rejects :
+  let steps := [([97], 0); ([98], 1); ([99], 2)] in
+  order_stop_b steps [0;1] [([97], true); ([98], false)] = true /\
+  order_stop_b steps [0;1;2] [([97], true); ([98], false); ([99], true)] = false /\
+  order_stop_b steps [0] [([97], true); ([98], true)] = false /\
+  order_stop_b steps [0;2] [([97], true); ([99], true)] = false /\
+  order_stop_b steps [0;1;2] [([97], true); ([98], false)] = false /\
+  order_stop_b steps [0;1] [([97], true); ([98], true)] = false.
+Proof. repeat split; reflexivity. Qed.
+
+(* Variable flow, same generality.  Whenever the templater is called for step j (named nm,
+   own preprocessor output pv) it receives a tree whose data-source part is the shot's
+   source and in which request [name] is visible exactly as [visible h nm pv name] says:
+     - name = nm: only the step's own preprocessor output (no postprocessor entry yet, and
+       nothing of an earlier execution of the same request);
+     - otherwise the preprocessor AND postprocessor output of the LATEST earlier execution of
+       [name] in h;  - nothing if [name] was not executed earlier;
+   where h lists exactly the steps 0..j-1 of THIS shot (newest first): nothing produced by
+   step j or later, and nothing of any other shot, can be visible. *)
+Theorem C15_varflow :
+  forall (W Src Req Rend Resp V : Type) (rname : Req -> bytes)
+         (o_pre : Req -> tree Src V -> W -> W * option (vars V))
+         (o_render : Req -> tree Src V -> W -> W * option Rend)
+         (o_exec : Rend -> W -> W * option Resp)
+         (o_post : Req -> Resp -> W -> W * option (vars V))
+         (o_status : Resp -> Z) (src : Src) (steps : list (Req * Z)) (w : W),
+  let '(evs, _, _) := shoot W Src Req Rend Resp V rname o_pre o_render o_exec o_post o_status src steps w in
+  forall j nm t h pv, In (EvRender j nm t h pv) evs ->
+    t_src t = src /\
+    (forall name, rm_get (t_req t) name = visible V h nm pv name) /\
+    nth_error (map (fun p => rname (fst p)) steps) j = Some nm /\
+    hist_names V h = rev (firstn j (map (fun p => rname (fst p)) steps)).
+Proof. exact shoot_varflow. Qed.
+Print Assumptions C15_varflow.
+
+(* non-vacuity on the concrete instance used by the correspondence run: a(2) then b; the
+   target answers 200,200,500; b asserts status 200 -> steps 0,1,2 sent, step 2 flagged failed *)
+Example C15_order_stop_example :
+  let a := {| cq_name := [97]; cq_id := 0; cq_iter := 0; cq_pre := []; cq_post := [CJson [116] [116]]; cq_tmpl := TNone |} in
+  let b := {| cq_name := [98]; cq_id := 1; cq_iter := 0; cq_pre := [([112], PPost [97] [116])]; cq_post := [CStatus 200]; cq_tmpl := TNone |} in
+  let r k st := {| rs_status := st; rs_json := true; rs_fields := [([116], [116; k])]; rs_hdr := None; rs_okbody := true |} in
+  let w := {| w_arr := 0; w_script := [Some (r 48 200%Z); Some (r 49 200%Z); Some (r 50 500%Z)];
+              w_dflt := fun _ => r 63 200%Z; w_iter := [] |} in
+  let '(evs, _, out) := c_shoot {| cs_tables := []; cs_glob := [] |} [(a, 0%Z); (a, 4%Z); (b, 0%Z); (a, 0%Z)] w in
+  out = FailedAt 2 FPost /\ sends _ _ _ evs = [0;1;2]%nat /\
+  samples _ _ _ evs = [(0%nat, Some 200%Z); (1%nat, Some 200%Z); (2%nat, None)] /\
+  pauses _ _ _ evs = [(1%nat, 4%Z)] /\
+  (* b's preprocessor saw the token captured by the LATEST execution of a: "t1" *)
+  exists t h, In (EvRender 2 [98] t h [([112], [116;49])]) evs.
+Proof.
+  vm_compute. repeat split. eexists. eexists. right. right. right. right. right. right. right. left. reflexivity.
+Qed.
+
+(* ------------------------------------------------------------------------------------ *)
+(* [next].  NextIterator.Next is one critical section; take ANY history of critical sections
+   of a fresh iterator (any number of instances, any interleaving: [merge_of_b tr progs] says
+   tr interleaves the instances' programs).  The p-th critical section, on segment s, returns
+   the number k of earlier critical sections on s — so (k < 2^63, len > 0) calcIndex picks
+   row k mod len: consecutive evaluations get consecutive rows cyclically, evaluations less
+   than len apart never get the same row, every len consecutive evaluations cover all rows;
+   and in a complete run the number of evaluations on s is the total the programs contain. *)
+Theorem C15_next_round_robin :
+  (forall tr p t s v,
+     nth_error (fst (it_run [] tr)) p = Some (t, s, v) ->
+     nth_error tr p = Some (t, s) /\ v = (N.of_nat (count_seg s (firstn p tr)) mod two64)) /\
+  (forall len k, (0 < len)%nat -> (N.of_nat k < two63) ->
+     next_row len (N.of_nat k mod two64) = NxRow (k mod len)) /\
+  (forall len k, (0 < len)%nat -> (S k mod len = (k mod len + 1) mod len)%nat) /\
+  (forall len k1 k2, (0 < len)%nat -> (k1 < k2)%nat -> (k2 < k1 + len)%nat -> (k1 mod len <> k2 mod len)%nat) /\
+  (forall len k0 r, (0 < len)%nat -> (r < len)%nat -> exists d, (d < len)%nat /\ ((k0 + d) mod len = r)%nat) /\
+  (forall tr progs, merge_of_b tr progs = true -> forall s, count_seg s tr = count_progs s progs).
+Proof.
+  split; [exact it_run_values|]. split; [exact next_row_k|]. split; [exact rows_consecutive|].
+  split; [exact rows_distinct_in_turn|]. split; [exact rows_cover_turn|exact merge_counts].
+Qed.
+Print Assumptions C15_next_round_robin.
+
+(* non-vacuity: two instances interleaved on one segment, 3 rows *)
+Example C15_next_example :
+  let s := [46;117] in
+  let tr := [(0%nat, s); (1%nat, s); (1%nat, s); (0%nat, s)] in
+  merge_of_b tr [[s; s]; [s; s]] = true /\
+  map (fun x => next_row 3 (snd x)) (fst (it_run [] tr)) = [NxRow 0; NxRow 1; NxRow 2; NxRow 0].
+Proof. split; reflexivity. Qed.
